@@ -26,6 +26,9 @@ func registerHarnessAPI(e *Engine) {
 	P := mainPath + "."
 	in[P+"verifString"] = func(m *Machine, fr *frame, a []Value) Value {
 		name := constArg(a[0], "verifString")
+		if name == "replacement" {
+			m.prefs[TVar(name, SStr)] = "<REPL>"
+		}
 		v := mkStrT(TVar(name, SStr))
 		m.recordInput(name, v)
 		return v
@@ -287,16 +290,34 @@ func (m *Machine) assert(c *Term, id string) {
 	if len(ob.Cond) > 400 {
 		ob.Cond = ob.Cond[:400] + "..."
 	}
-	r, mod := m.checkModel(q)
-	switch r {
-	case Unsat:
-		ob.Result = "discharged"
-	case Sat:
-		ob.Result = "violated"
-		ob.Model = mod
-		ob.Trail = append([]int{}, m.trail[:m.tpos]...)
-	default:
-		ob.Result = "inconclusive"
+	// verdict query first (uninterpreted predicates, no witness hygiene): unsat = holds
+	r, _ := m.solver.Check(q, false)
+	var mod *Model
+	if r == Sat {
+		if m.job != nil && !m.job.modelBudget(id) {
+			// further instances of an already witnessed site: no model search
+			ob.Result = "violated"
+			ob.Trail = append([]int{}, m.trail[:m.tpos]...)
+			ob.Details = "further instance (model search skipped)"
+		} else {
+			r, mod = m.checkModel(q)
+			if r == Unknown {
+				// the abstract query is satisfiable but no concrete witness was found in time
+				ob.Details = "satisfiable with uninterpreted predicates; concrete witness not found within the solver budget"
+			}
+		}
+	}
+	if ob.Result == "" {
+		switch r {
+		case Unsat:
+			ob.Result = "discharged"
+		case Sat:
+			ob.Result = "violated"
+			ob.Model = mod
+			ob.Trail = append([]int{}, m.trail[:m.tpos]...)
+		default:
+			ob.Result = "inconclusive"
+		}
 	}
 	// continue the path under the asserted condition (if possible)
 	if r != Unsat || true {
@@ -313,9 +334,37 @@ func (m *Machine) checkModel(q []*Term) (Result, *Model) {
 	return checkModelWith(m.solver, m.eng, m.freshAtoms, m.prefs, q)
 }
 
+// modelValid: every constraint evaluates to true under the model with the native
+// interpretation of the engine's uninterpreted symbols (regexp, jstr, sha256, ...).
+func modelValid(mod *Model, q []*Term) bool {
+	for _, t := range q {
+		r, err := mod.Eval(t)
+		if err != nil {
+			return false
+		}
+		if b, ok := r.(bool); !ok || !b {
+			return false
+		}
+	}
+	return true
+}
+
 func checkModelWith(solver *Solver, e *Engine, fresh map[*Term]bool, prefs map[*Term]string, q []*Term) (Result, *Model) {
+	// stage 1: regular expressions stay uninterpreted; the model is accepted if it is a
+	// genuine one (checked by native evaluation). Cheap, and usually succeeds because the
+	// preferred witness values fall on the common side of every classifier.
+	if r, mod := checkModelStage(solver, e, fresh, prefs, q, false); r == Unsat {
+		return Unsat, nil
+	} else if r == Sat && mod != nil && modelValid(mod, q) {
+		return Sat, mod
+	}
+	// stage 2: with the definitions of the regular expressions
+	return checkModelStage(solver, e, fresh, prefs, q, true)
+}
+
+func checkModelStage(solver *Solver, e *Engine, fresh map[*Term]bool, prefs map[*Term]string, q []*Term, withRegexDefs bool) (Result, *Model) {
 	q2 := append([]*Term{}, q...)
-	q2 = append(q2, modelConstraintsFor(e, fresh, q)...)
+	q2 = append(q2, modelConstraintsForStage(e, fresh, q, withRegexDefs)...)
 	// witness hygiene: prefer distinctive values for free atoms when they are consistent
 	vars := subterms(q2, func(t *Term) bool { return t.kind == KVar && t.sort == SStr })
 	for _, v := range vars {
@@ -354,7 +403,7 @@ func checkModelWith(solver *Solver, e *Engine, fresh map[*Term]bool, prefs map[*
 	}
 	if r == Unsat {
 		// the hygiene constraints are not part of the claim: retry without them
-		q3 := append(append([]*Term{}, q...), modelConstraintsFor(e, fresh, q)...)
+		q3 := append(append([]*Term{}, q...), modelConstraintsForStage(e, fresh, q, withRegexDefs)...)
 		r, mod = solver.Check(q3, true)
 		if r == Sat && mod != nil {
 			mod.UF = e.evalUF
@@ -364,6 +413,10 @@ func checkModelWith(solver *Solver, e *Engine, fresh map[*Term]bool, prefs map[*
 }
 
 func modelConstraintsFor(e *Engine, fresh map[*Term]bool, q []*Term) []*Term {
+	return modelConstraintsForStage(e, fresh, q, true)
+}
+
+func modelConstraintsForStage(e *Engine, fresh map[*Term]bool, q []*Term, withRegexDefs bool) []*Term {
 	var out []*Term
 	vars := subterms(q, func(t *Term) bool { return t.kind == KVar && t.sort == SStr })
 	for _, v := range vars {
@@ -376,6 +429,9 @@ func modelConstraintsFor(e *Engine, fresh map[*Term]bool, q []*Term) []*Term {
 			}
 			out = append(out, TNot(TEq(v, TStr(""))))
 		}
+	}
+	if !withRegexDefs {
+		return out
 	}
 	// regexp predicates get their definition
 	for _, u := range subterms(q, func(t *Term) bool { return t.kind == KApp && t.uf && strings.HasPrefix(t.op, "re#") }) {
